@@ -94,7 +94,25 @@ fn normalise_dynamic(ts: &TypeSystem, ty: &Ty, v: &Val) -> Val {
     }
 }
 
-fn normalise_dynamic_args(ts: &TypeSystem, defs: &[ArgDef], m: &[(String, Val)]) -> Val {
+/// Apply the reference coercion to what a dynamic resolver received (input-field
+/// defaults, single value -> list); top-level presence/absence is kept.
+pub fn recoerce_dynamic(ts: &TypeSystem, defs: &[ArgDef], received: &Val) -> Val {
+    let Val::Obj(m) = received else { return received.clone() };
+    let empty = vh_model::coerce::Vars::new();
+    Val::Obj(
+        m.iter()
+            .map(|(k, v)| match defs.iter().find(|d| &d.name == k) {
+                Some(d) => match vh_model::coerce::coerce(ts, &d.ty, v, Some(&empty), true) {
+                    Ok(vh_model::coerce::C::V(x)) => (k.clone(), x),
+                    _ => (k.clone(), v.clone()),
+                },
+                None => (k.clone(), v.clone()),
+            })
+            .collect(),
+    )
+}
+
+pub fn normalise_dynamic_args(ts: &TypeSystem, defs: &[ArgDef], m: &[(String, Val)]) -> Val {
     Val::Obj(
         m.iter()
             .map(|(k, v)| match defs.iter().find(|d| &d.name == k) {
@@ -108,7 +126,7 @@ fn normalise_dynamic_args(ts: &TypeSystem, defs: &[ArgDef], m: &[(String, Val)])
 pub fn main() {
     let mut run = Run::from_args(
         "exploration",
-        "generated operations over S1 (echo fields for every receiving Rust type: T, Option<T>, MaybeUndefined<T>, Vec, \
+        "(an evaluation is one executed request or one resolver call whose received arguments were compared) generated operations over S1 (echo fields for every receiving Rust type: T, Option<T>, MaybeUndefined<T>, Vec, \
          nested lists, enums, ID, Float, input objects with defaults, oneOf) and over generated dynamic schemas; argument \
          values supplied as literals, variables, nested variables, omitted variables, explicit nulls, with defaults at \
          variable, argument and input-field level; 10% of cases carry a variable value of the wrong JSON kind. Each \
@@ -125,6 +143,7 @@ pub fn main() {
     run.require_counter("calls_compared");
     let shards = n_shards(&run);
     let run = &run;
+    crate::witness::c06(run);
     std::thread::scope(|sc| {
         for shard in 0..shards {
             sc.spawn(move || {
@@ -155,7 +174,7 @@ pub fn main() {
                     o.directives = r.chance(1, 3);
                     o.kind = if ts.mutation.is_some() && r.chance(1, 6) { OpKind::Mutation } else { OpKind::Query };
                     let mut gd = gen_doc(&ts, &mut r, &o);
-                    if r.chance(1, 10) {
+                    if r.chance(1, 10) && run.feature("bad_variable_value") {
                         corrupt_variable(&mut gd.vars, &mut r);
                     }
                     let world = world_for(schema.flavour(), r.next_u64());
@@ -243,13 +262,18 @@ fn one(run: &Run, schema: &AnySchema, case: &Case) {
                         let got_raw = e.args.clone().unwrap_or(Val::Obj(vec![]));
                         let got = if schema.flavour() == "static" {
                             got_raw.clone()
-                        } else {
+                        } else if run.feature("dynamic_nested_coercion") {
                             match &got_raw {
                                 Val::Obj(m) => normalise_dynamic_args(&case.ts, &fd.args, m),
                                 other => other.clone(),
                             }
+                        } else {
+                            // while the finding "dynamic resolvers receive values without nested coercion"
+                            // is open, compare what the received value denotes (own coercion applied to it)
+                            recoerce_dynamic(&case.ts, &fd.args, &got_raw)
                         };
                         run.count("calls_compared", 1);
+                        run.eval();
                         if !fd.args.is_empty() {
                             run.nontrivial(rng::mix(&[rng::hash_str(&call.path), rng::hash_str(&got.canon()), rng::hash_str(&case.printed.text)]));
                         }
